@@ -150,6 +150,9 @@ type fixedReader struct {
 	pos      int
 	errAfter error
 	Reads    int
+	// hostile behaviours (memory safe, but outside what a polite reader does):
+	spill  []byte // written over p[n:cap(p)], the spare capacity behind the requested bytes
+	onRead func() // called during the first Read (the caller's other buffers change under the signer)
 }
 
 func (f *fixedReader) Read(p []byte) (int, error) {
@@ -169,6 +172,15 @@ func (f *fixedReader) Read(p []byte) (int, error) {
 	}
 	copy(p, f.data[f.pos:f.pos+n])
 	f.pos += n
+	if f.spill != nil {
+		rest := p[:cap(p)][n:]
+		for i := range rest {
+			rest[i] = f.spill[i%len(f.spill)]
+		}
+	}
+	if f.onRead != nil && f.Reads == 1 {
+		f.onRead()
+	}
 	return n, nil
 }
 
